@@ -8,15 +8,21 @@ proof        : TamocV/Props/C06.lean over Model.Smp (hand transcription of smp.d
                    inner + outer                         = E*Sa         (salt)
                    inner_diss_j + sum_p inner_mass_pj + outer_j = E*ca_j (compound j)
                    inner_3 + sum_p inner_heat_p + outer_3 = rho_r*cp*E*Ta - sum_pj inner_mass_pj*neg_dH_solR_j*Ru/M_j
-               with E = 2*pi*b_o*alpha_3*u_o, and the reduction to ambient values when no outer plume exists.
+               with E = 2*pi*b_o*alpha_3*u_o, composed with OuterPlume.update (present branch: E in terms of the
+               outer STATE, E <= 0; absent branch: the inner plume entrains ambient values), and the outer vector
+               when no inner plume exists.
 tie          : (H) real InnerPlume/OuterPlume/PlumeParticle objects, real smp.derivs_inner / derivs_outer
                called at the same depth with each other's state as neighbour; the derived attributes left in
                yi / yo / particles are sent to the Lean driver, which recomputes both vectors (slot by slot,
-               TOL gen_vs_source) and the identity sides on the REAL vectors.
-real code    : the identities themselves are evaluated in Python on the vectors the real code returns for
-               every case (TOL identity, relative to the sum of |terms|).
+               TOL gen_vs_source).  ANY slot-wise disagreement is a broken obligation.
+oracle       : the harness computes, independently of the objects, the ambient values at the depth of the call
+               (profile.get_values(z, ...), seawater.density) and the derived variables of both plumes from the
+               two STATE vectors (u=J/Q, b, s=S/Q, T=H/(rho_r cp Q), c=C/Q; ambient substitution when a plume is
+               absent); the attributes of the real objects are compared with them, and the identities are
+               evaluated with the ORACLE values on the right-hand side, on the vectors the real code returned.
 """
 import math
+import traceback
 import warnings
 
 import numpy as np
@@ -29,37 +35,52 @@ META = {
             'chemicals, by induction over the particle and chemical lists): the vectors returned by the model of '
             'smp.derivs_inner (sign-flipped) and smp.derivs_outer add up, slot by slot and summed over the particle '
             'mass/heat slots, to the ambient entrainment into the outer plume alone (E, E*Sa, E*ca_j, rho_r*cp*E*Ta '
-            'plus the heat of solution of the dissolution gradients); with the no-outer-plume record of '
-            'OuterPlume.update the inner plume entrains ambient values. The model is tied to the code by running the '
+            'plus the heat of solution of the dissolution gradients); composed with OuterPlume.update, E is expressed in '
+            'the outer state and is <= 0 for Q<0, J>0, and for Q>=0 the inner plume entrains ambient values; without an '
+            'inner plume the outer vector is the ambient entrainment alone. The model is tied to the code by running the '
             'real smp.derivs_inner/derivs_outer on real InnerPlume/OuterPlume objects (states from real short '
-            'simulations, perturbed; outer states arbitrary with Q<0,J>0 or absent; 0-5 particle classes; with and '
-            'without background concentrations; model parameters varied, c1 != 0 included) and comparing every slot '
-            'with the Lean model at Float; the identities are also evaluated directly on the real vectors.',
+            'simulations, perturbed; outer states arbitrary with Q<0,J>0 or absent; inner absent; 1-5 particle classes; '
+            'with and without background concentrations; model parameters varied, c1 != 0 included) and comparing every '
+            'slot with the Lean model at Float. Independently of the objects, the harness looks the ambient up at the '
+            'depth of the call and derives u,b,s,T,c of both plumes from the state vectors; the objects are compared with '
+            'this oracle and the identities are evaluated on the real vectors with the oracle values on the right-hand side.',
     'note': 'Trusted: Lean kernel + 3 standard axioms; my transcription Model/Smp.lean (tied by slot-wise correspondence '
-            'on every case); real arithmetic as stand-in for doubles. Modelled as inputs, not verified: the closures '
-            'shear_entrainment (alpha_s), cp_model (Ep), seawater.density, dbm particle properties, profile look-ups '
-            '(the derived attributes are read from the updated objects). A discrepancy between model and code that is '
-            'common to both copies of an exchange term (same amount added to the inner yp and the outer yp) leaves the '
-            'theorems applicable (Props.C06.common_shift_*) and is reported in the evidence notes, not as a violation. '
-            'The momentum, age and position slots are transcribed and compared but the property makes no claim about them. '
-            'Generated scenarios give all soluble classes one shared composition list (the convention of the stratified plume '
-            'model: derivs_inner indexes beta[j], Cs[j] of every soluble particle by the position j in the common chemical list).',
-    'technique': 'Lean 4 proof (ring + list induction) over a hand model + slot-wise differential execution against the real code + identities on real outputs',
+            'on every case; any disagreement is a broken obligation); real arithmetic as stand-in for doubles. Read back '
+            'from the real objects, not verified: the closures shear_entrainment (alpha_s), cp_model (Ep), the void '
+            'fraction / buoyancy (Xi, Fb) and the dbm particle properties (us, A, beta, Cs, rho_p, beta_T) — physical '
+            'laws the conservation identities do not depend on. seawater.density and profile.get_values are used by the '
+            'oracle as given (C13, C07). The momentum, age and position slots are transcribed and compared but the property '
+            'makes no claim about them. STATED SCOPE LIMIT: all soluble particle classes of a scenario share one composition '
+            'list — a documented precondition of tamoc ("All particles have the same composition", dispersed_phases.py '
+            'l.1034; derivs_inner indexes beta[j], Cs[j] of every soluble particle by the position j in the common list). '
+            'Conservation per NAMED compound for differing lists is outside the property as checked; a separate labelled '
+            'probe runs permuted and subset lists and records what the code does as an evidence note only.',
+    'technique': 'Lean 4 proof (ring + list induction) over a hand model + slot-wise differential execution against the real code + independent oracle for ambient/derived values + identities on real outputs',
 }
 GEN = []
 MODULES = ['TamocV.Props.C06', 'TamocV.Model.Smp']
-RULE = ('scenarios: seeded specs (scen_spm.random_spec) with 0-3 soluble + 0-2 inert particle classes (1-5 classes, shared '
-        'composition of 1-3 compounds), profile depth 400-2000 m, with/without background concentrations; a short REAL '
-        'simulation per scenario gives inner (and outer) solutions. Cases per scenario: (a) simulated inner row + simulated '
-        'outer state at the same depth through the real neighbour interpolators; (b) perturbed inner row (fluxes, s, T, c, '
-        'particle masses/temperatures/ages) at its own or a random depth with an ARBITRARY outer state Q<0, J>0 (u_o 1e-3..1 m/s, '
-        's_o 0..40, T_o 272..305 K, c_o 0..1e-2); (c) outer absent: all-zero state, the z<min(neighbor.x) branch, Q>=0 with '
-        'non-zero other slots; model parameters c1, alpha_2, alpha_3, gamma_i, gamma_o, lambda_2 redrawn in half of the cases. '
-        'A case is non-trivial when its (scenario, z, Q_i, J_i, Q_o, J_o) differ from every earlier case and all vectors are finite')
+RULE = ('scenarios: seeded specs (scen_spm.random_spec) with 0-4 soluble + 0-4 inert particle classes (1-5 classes; ALL soluble '
+        'classes of a scenario share one composition list of 1-3 compounds — tamoc precondition, see note), profile depth '
+        '400-2000 m, with/without background concentrations; a short REAL simulation per scenario gives inner (and outer) '
+        'solutions. Case kinds per scenario: simulated-pair (simulated inner row + simulated outer state at the same depth '
+        'through the real neighbour interpolators); outer-arbitrary (perturbed inner row — fluxes, s, T, c, particle '
+        'masses/temperatures/ages, thin plumes — at its own or a random depth with an ARBITRARY outer state Q<0, J>0: u_o 1e-3..1 m/s, '
+        's_o 0..40, T_o 272..305 K, c_o 0..1e-2); outer-absent-zeros / -above (z<min(neighbor.x) branch) / -Qge0 (Q>=0 with '
+        'non-zero other slots); inner-absent-zeros / -below (z>max(neighbor.x) branch; derivs_outer only, Q_i = 0); model '
+        'parameters c1, alpha_2, alpha_3, gamma_i, gamma_o, lambda_2 redrawn in half of the cases. Floors on completed state '
+        'pairs per kind are obligations. A case is non-trivial when its (scenario, z, Q_i, J_i, Q_o, J_o) differ from every '
+        'earlier case and all vectors are finite')
 LEVEL_NOTE = ('theorems over the reals about the hand-written model Model/Smp.lean of smp.derivs_inner/derivs_outer/'
-              'OuterPlume.update; the tie to /repo is slot-wise agreement at Float on every generated case; closures '
-              '(alpha_s, Ep, densities, particle properties) enter as the values the real objects hold')
+              'OuterPlume.update; the tie to /repo is slot-wise agreement at Float on every generated case; ambient and derived '
+              'variables are checked against an independent oracle; the closures alpha_s, Ep, Xi, Fb and the particle '
+              'properties enter as the values the real objects hold')
 
+KINDS = ['simulated-pair', 'outer-arbitrary', 'outer-absent-zeros', 'outer-absent-above', 'outer-absent-Qge0',
+         'inner-absent-zeros', 'inner-absent-below']
+# minimum number of COMPLETED state pairs per kind (quick, thorough)
+FLOORS = {'simulated-pair': (10, 300), 'outer-arbitrary': (200, 5000), 'outer-absent-zeros': (25, 600),
+          'outer-absent-above': (20, 500), 'outer-absent-Qge0': (20, 500), 'inner-absent-zeros': (10, 200),
+          'inner-absent-below': (10, 200)}
 
 
 def audit_files():
@@ -120,21 +141,29 @@ def make_cases(ctx, sc, sim, n):
     if not good:
         return cases
     zmin_i, zmax_i = float(np.min(zi)), float(np.max(zi))
-    have_outer = len(zo) > 1 and np.any(yos[:, 0] < 0)
+    have_outer = sc.nb_o is not None and len(zo) > 1 and np.any(yos[:, 0] < 0)
+    H = sc.spec['profile']['H']
     for _ in range(n):
         u = r.random()
         case = {'p': draw_params(r) if r.random() < 0.5 else {}}
-        if u < 0.15 and have_outer:
-            # (a) simulated pair through the real neighbour interpolators
+        if u < 0.13 and have_outer:
+            # simulated pair through the real neighbour interpolators
             lo = max(zmin_i, float(np.min(zo)) - (5. if r.random() < 0.3 else 0.))
             hi = min(zmax_i, float(np.max(zo)))
             if not lo < hi:
                 lo, hi = zmin_i, zmax_i
             case.update({'kind': 'simulated-pair', 'z': min(max(r.uniform(lo, hi), zmin_i), zmax_i)})
+        elif u < 0.19:
+            # no inner plume (the outer plume has descended below the release): derivs_outer only
+            k = r.choice(good)
+            z = r.uniform(0.05, 0.98) * H
+            yi0 = np.zeros(len(yis[k]))
+            case.update({'kind': r.choice(['inner-absent-zeros', 'inner-absent-below']), 'z': z, 'yi': yi0,
+                         'yo': draw_outer(r, sc, z, yis[k], nchems)})
         else:
             k = r.choice(good)
             yi_state = S.perturb_inner(r, sc, yis[k], strength=r.choice([0., 0.3, 1., 1.]))
-            z = float(zi[k]) if r.random() < 0.6 else r.uniform(0.02, 0.98) * sc.spec['profile']['H']
+            z = float(zi[k]) if r.random() < 0.6 else r.uniform(0.02, 0.98) * H
             if u < 0.70:
                 case.update({'kind': 'outer-arbitrary', 'z': z, 'yi': yi_state,
                              'yo': draw_outer(r, sc, z, yi_state, nchems)})
@@ -176,8 +205,9 @@ def snapshot(yi, yo, particles):
         'inner': [fl(yi.b), fl(yi.u), fl(yi.s), fl(yi.T), fl(yi.rho), fl(yi.rho_a), fl(yi.alpha_s), fl(yi.Ep),
                   fl(yi.Xi), fl(yi.Fb)],
         'inner_c': vec(yi.c),
+        'inner_amb': [fl(yi.Ta), fl(yi.Sa), fl(yi.P)], 'inner_ca': vec(yi.ca),
         'outer': [fl(yo.b), fl(yo.u), fl(yo.s), fl(yo.T), fl(yo.rho), fl(yo.rho_a), fl(yo.Sa), fl(yo.Ta)],
-        'outer_c': vec(yo.c), 'outer_ca': vec(yo.ca),
+        'outer_c': vec(yo.c), 'outer_ca': vec(yo.ca), 'outer_P': fl(yo.P),
         'particles': [],
     }
     for pt in particles:
@@ -198,17 +228,57 @@ def particle_args(rec):
     return out
 
 
+def oracle(sc, z, y_i, y_o, p):
+    """INDEPENDENT of the plume objects: ambient values looked up at the depth z of the call and the derived
+    variables of both plumes computed from the two state vectors (definitions of the double-plume model:
+    top-hat u = J/Q, b_i = Q/sqrt(pi J), b_o = sqrt(Q^2/(pi J) + b_i^2), s = S/Q, T = H/(rho_r cp Q), c = C/Q;
+    a plume that does not exist (Q_i <= 0, Q_o >= 0) holds u = b = 0 and the ambient s, T, c, rho)"""
+    from tamoc import seawater
+    Ta, Sa, P = [float(v) for v in sc.profile.get_values(float(z), ['temperature', 'salinity', 'pressure'])]
+    ca = vec(sc.profile.get_values(float(z), list(sc.chem_names))) if len(sc.chem_names) else []
+    rho_a = float(seawater.density(Ta, Sa, P))
+    rc = float(p.rho_r) * float(seawater.cp())
+    nchems = len(sc.chem_names)
+    Qi, Ji = float(y_i[0]), float(y_i[1])
+    if Qi > 0.:
+        Ti, si = float(y_i[3]) / (rc * Qi), float(y_i[2]) / Qi
+        inner = {'u': Ji / Qi, 'b': Qi / math.sqrt(math.pi * Ji) if Ji > 0 else float('nan'), 's': si, 'T': Ti,
+                 'c': [float(v) / Qi for v in y_i[len(y_i) - nchems:]] if nchems else [],
+                 'rho': float(seawater.density(Ti, si, P))}
+    else:
+        inner = {'u': 0., 'b': 0., 's': Sa, 'T': Ta, 'c': list(ca), 'rho': rho_a}
+    Qo, Jo = float(y_o[0]), float(y_o[1])
+    if Qo < 0.:
+        To, so = float(y_o[3]) / (rc * Qo), float(y_o[2]) / Qo
+        outer = {'u': Jo / Qo, 'b': math.sqrt(Qo ** 2 / (math.pi * Jo) + inner['b'] ** 2) if Jo > 0 else float('nan'),
+                 's': so, 'T': To, 'c': [float(v) / Qo for v in y_o[4:]], 'rho': float(seawater.density(To, so, P))}
+    else:
+        outer = {'u': 0., 'b': 0., 's': Sa, 'T': Ta, 'c': list(ca), 'rho': rho_a}
+    return {'Ta': Ta, 'Sa': Sa, 'P': P, 'ca': ca, 'rho_a': rho_a, 'inner': inner, 'outer': outer}
+
+
+def raise_site(e):
+    """innermost frame inside tamoc of a raised exception: '<ExcType>@<file>:<function>'"""
+    site = '?'
+    for fr in traceback.extract_tb(e.__traceback__):
+        if '/tamoc/' in fr.filename:
+            site = '%s:%s' % (fr.filename.split('/')[-1], fr.name)
+    return '%s@%s' % (type(e).__name__, site)
+
+
 def run_real(sc, objs, case):
     """call the real smp.derivs_inner and smp.derivs_outer at the same depth with each other's state
-    as neighbour; returns the two vectors and the attribute snapshots after each call"""
+    as neighbour; returns the two vectors and the attribute snapshots after each call.  For the
+    inner-absent kinds only derivs_outer is called (derivs_inner of a non-existent inner plume is 0/0)."""
     from tamoc import smp
     yi, yo = objs
     z = float(case['z'])
     p = S.copy_params(sc.p, **case['p'])
     S.reset_heat_transfer(sc)
+    kind = case['kind']
     with warnings.catch_warnings(), np.errstate(all='ignore'):
         warnings.simplefilter('ignore')
-        if case['kind'] == 'simulated-pair':
+        if kind == 'simulated-pair':
             nb_i, nb_o = sc.nb_i, sc.nb_o
             y_i = np.array(nb_i(z), dtype=float)
             if z < np.min(nb_o.x):
@@ -219,37 +289,59 @@ def run_real(sc, objs, case):
         else:
             y_i = np.array(case['yi'], dtype=float)
             y_o = np.array(case['yo'], dtype=float)
-            nb_o = S.const_neighbor(z, y_o, above=(case['kind'] == 'outer-absent-above'))
-            nb_i = S.const_neighbor(z, y_i)
-        ri = np.array(smp.derivs_inner(z, y_i.copy(), yi, yo, sc.particles, sc.profile, p, nb_o), dtype=float)
-        recA = snapshot(yi, yo, sc.particles)
+            nb_o = S.const_neighbor(z, y_o, above=(kind == 'outer-absent-above'))
+            nb_i = S.const_neighbor(z, y_i, below=(kind == 'inner-absent-below'))
+        orc = oracle(sc, z, y_i, y_o, p)
+        ri, recA = None, None
+        if not kind.startswith('inner-absent'):
+            ri = np.array(smp.derivs_inner(z, y_i.copy(), yi, yo, sc.particles, sc.profile, p, nb_o), dtype=float)
+            recA = snapshot(yi, yo, sc.particles)
         ro = np.array(smp.derivs_outer(z, y_o.copy(), yi, yo, sc.particles, sc.profile, p, nb_i), dtype=float)
         recB = snapshot(yi, yo, sc.particles)
-    return {'ri': ri, 'ro': ro, 'recA': recA, 'recB': recB, 'pv': params_vec(p), 'y_o': y_o, 'y_i': y_i}
+    return {'ri': ri, 'ro': ro, 'recA': recA, 'recB': recB, 'pv': params_vec(p), 'y_o': y_o, 'y_i': y_i, 'oracle': orc}
 
 
 # ---------------------------------------------------------------------------
-# the property predicate on real vectors
+# predicates
 # ---------------------------------------------------------------------------
 
-def identities(pv, nchems, rec, ri, ro):
-    """[(name, lhs, rhs, scale)] — the exchange identities on the vectors the real code returned.
-    `scale` = sum of |terms| (the returned slots, the right-hand side and the fluxes that make them up)."""
-    c1, a2, a3, gi, go, l2, g, rho_r, Ru, cp = pv
-    bi, ui, si, Ti, rhoi, rhoai, als, Ep, Xi, Fb = rec['inner']
-    bo, uo, so, To, rhoo, rhoao, Sa, Ta = rec['outer']
-    ci, co, ca = rec['inner_c'], rec['outer_c'], rec['outer_ca']
-    E = 2. * math.pi * bo * a3 * uo
-    ent = abs(2. * math.pi * bi * als * (ui + c1 * uo))      # |entrainment from outer into inner|
-    det = abs(2. * math.pi * bi * a2 * uo)                   # |detrainment from inner to outer|
+def holds(lhs, rhs, scale):
+    return abs(lhs - rhs) <= TOL['identity'] * scale + TOL['abs_floor']
+
+
+def oracle_mismatches(rec, orc, which):
+    """[(key, attribute, code value, oracle value)] — attributes of the real objects vs the independent oracle"""
     out = []
-    out.append(('volume', ri[0] + ro[0], E, abs(ri[0]) + abs(ro[0]) + abs(E) + ent + det + abs(Ep)))
-    out.append(('salt', ri[2] + ro[2], E * Sa,
-                abs(ri[2]) + abs(ro[2]) + abs(E * Sa) + ent * abs(so) + det * abs(si) + abs(Ep * si)))
+    tol = TOL['gen_vs_source']
+
+    def cmp(key, name, got, want):
+        if not close(got, want, tol):
+            out.append((key + ':' + name, name, got, want))
+    io = rec['inner']
+    cmp('ambient-not-at-depth', 'InnerPlume.Ta', rec['inner_amb'][0], orc['Ta'])
+    cmp('ambient-not-at-depth', 'InnerPlume.Sa', rec['inner_amb'][1], orc['Sa'])
+    cmp('ambient-not-at-depth', 'InnerPlume.P', rec['inner_amb'][2], orc['P'])
+    cmp('ambient-not-at-depth', 'InnerPlume.rho_a', io[5], orc['rho_a'])
+    cmp('ambient-not-at-depth', 'InnerPlume.ca', rec['inner_ca'], orc['ca'])
+    oo = rec['outer']
+    cmp('ambient-not-at-depth', 'OuterPlume.Ta', oo[7], orc['Ta'])
+    cmp('ambient-not-at-depth', 'OuterPlume.Sa', oo[6], orc['Sa'])
+    cmp('ambient-not-at-depth', 'OuterPlume.P', rec['outer_P'], orc['P'])
+    cmp('ambient-not-at-depth', 'OuterPlume.rho_a', oo[5], orc['rho_a'])
+    cmp('ambient-not-at-depth', 'OuterPlume.ca', rec['outer_ca'], orc['ca'])
+    oi, ooo = orc['inner'], orc['outer']
+    for k, name in enumerate(('b', 'u', 's', 'T', 'rho')):
+        cmp('derived-not-from-state', 'InnerPlume.' + name, io[k], oi[name])
+        cmp('derived-not-from-state', 'OuterPlume.' + name, oo[k], ooo[name])
+    cmp('derived-not-from-state', 'InnerPlume.c', rec['inner_c'], oi['c'])
+    cmp('derived-not-from-state', 'OuterPlume.c', rec['outer_c'], ooo['c'])
+    return out
+
+
+def particle_sums(nchems, rec, ri, Ru):
+    """walk the particle block of the inner vector with the index arithmetic of InnerPlume.update"""
     idx = 4
-    heat_sum = 0.
-    hos = 0.
-    sc_heat = 0.
+    heat_sum = hos = sc_heat = 0.
     mass = [0.] * nchems
     sc_mass = [0.] * nchems
     for q in rec['particles']:
@@ -264,6 +356,27 @@ def identities(pv, nchems, rec, ri, ro):
         heat_sum += ri[idx + nc]
         sc_heat += abs(ri[idx + nc])
         idx += nc + 5
+    return idx, mass, sc_mass, heat_sum, hos, sc_heat
+
+
+def identities(pv, nchems, rec, orc, ri, ro):
+    """[(name, lhs, rhs, scale)] — the exchange identities on the vectors the real code returned, with the
+    ORACLE ambient values and ORACLE b_o, u_o on the right-hand side.  `scale` = sum of |terms| (the returned
+    slots, the right-hand side and the fluxes that make them up).  alpha_s, Ep are the closures' values."""
+    c1, a2, a3, gi, go, l2, g, rho_r, Ru, cp = pv
+    als, Ep = rec['inner'][6], rec['inner'][7]
+    I, O = orc['inner'], orc['outer']
+    bi, ui, si, Ti, ci = I['b'], I['u'], I['s'], I['T'], I['c']
+    bo, uo, so, To, co = O['b'], O['u'], O['s'], O['T'], O['c']
+    Sa, Ta, ca = orc['Sa'], orc['Ta'], orc['ca']
+    E = 2. * math.pi * bo * a3 * uo
+    ent = abs(2. * math.pi * bi * als * (ui + c1 * uo))      # |entrainment from outer into inner|
+    det = abs(2. * math.pi * bi * a2 * uo)                   # |detrainment from inner to outer|
+    out = []
+    out.append(('volume', ri[0] + ro[0], E, abs(ri[0]) + abs(ro[0]) + abs(E) + ent + det + abs(Ep)))
+    out.append(('salt', ri[2] + ro[2], E * Sa,
+                abs(ri[2]) + abs(ro[2]) + abs(E * Sa) + ent * abs(so) + det * abs(si) + abs(Ep * si)))
+    idx, mass, sc_mass, heat_sum, hos, sc_heat = particle_sums(nchems, rec, ri, Ru)
     rc = rho_r * cp
     out.append(('heat', ri[3] + heat_sum + ro[3], rc * E * Ta - hos,
                 abs(ri[3]) + abs(ro[3]) + abs(rc * E * Ta) + sc_heat + rc * (ent * abs(To) + det * abs(Ti) + abs(Ep * Ti))))
@@ -273,34 +386,18 @@ def identities(pv, nchems, rec, ri, ro):
     return out, idx
 
 
-def absent_predicates(pv, nchems, rec, ri, idiss):
+def absent_predicates(pv, nchems, rec, orc, ri, idiss):
     """with no outer plume the inner plume exchanges with the AMBIENT: the inner vector alone must equal
-    -(2 pi b alpha_s u * ambient value + Ep * plume value) (+ particle terms, which cancel in the totals)"""
+    -(2 pi b alpha_s u * ambient value at this depth + Ep * plume value) (+ particle terms, which cancel in the totals)"""
     c1, a2, a3, gi, go, l2, g, rho_r, Ru, cp = pv
-    bi, ui, si, Ti, rhoi, rhoai, als, Ep, Xi, Fb = rec['inner']
-    bo, uo, so, To, rhoo, rhoao, Sa, Ta = rec['outer']
-    ci, ca = rec['inner_c'], rec['outer_ca']
+    als, Ep = rec['inner'][6], rec['inner'][7]
+    I = orc['inner']
+    bi, ui, si, Ti, ci = I['b'], I['u'], I['s'], I['T'], I['c']
+    Sa, Ta, ca = orc['Sa'], orc['Ta'], orc['ca']
     en = 2. * math.pi * bi * als * ui
     out = [('absent-volume', ri[0], -(en + Ep), abs(en) + abs(Ep) + abs(ri[0])),
            ('absent-salt', ri[2], -(en * Sa + Ep * si), abs(en * Sa) + abs(Ep * si) + abs(ri[2]))]
-    idx = 4
-    heat_sum = 0.
-    hos = 0.
-    scale_h = 0.
-    mass = [0.] * nchems
-    sc_mass = [0.] * nchems
-    for q in rec['particles']:
-        nc = q['nc']
-        if q['scal'][0] > 0.5:
-            for j in range(nchems):
-                mass[j] += ri[idx + j]
-                sc_mass[j] += abs(ri[idx + j])
-                t = ri[idx + j] * q['ndh'][j] * Ru / q['M'][j]
-                hos += t
-                scale_h += abs(t)
-        heat_sum += ri[idx + nc]
-        scale_h += abs(ri[idx + nc])
-        idx += nc + 5
+    idx, mass, sc_mass, heat_sum, hos, scale_h = particle_sums(nchems, rec, ri, Ru)
     rc = rho_r * cp
     out.append(('absent-heat', ri[3] + heat_sum, -rc * (en * Ta + Ep * Ti) - hos,
                 abs(ri[3]) + scale_h + rc * (abs(en * Ta) + abs(Ep * Ti))))
@@ -310,52 +407,146 @@ def absent_predicates(pv, nchems, rec, ri, idiss):
     return out
 
 
-def holds(lhs, rhs, scale):
-    return abs(lhs - rhs) <= TOL['identity'] * scale + TOL['abs_floor']
+def inner_absent_predicates(pv, nchems, orc, ro):
+    """without an inner plume the outer plume exchanges with the ambient alone: outer = E*(1, Sa, rho_r cp Ta, ca)"""
+    c1, a2, a3, gi, go, l2, g, rho_r, Ru, cp = pv
+    O = orc['outer']
+    E = 2. * math.pi * O['b'] * a3 * O['u']
+    rc = rho_r * cp
+    out = [('inner-absent-volume', ro[0], E, abs(ro[0]) + abs(E)),
+           ('inner-absent-salt', ro[2], E * orc['Sa'], abs(ro[2]) + abs(E * orc['Sa'])),
+           ('inner-absent-heat', ro[3], rc * E * orc['Ta'], abs(ro[3]) + abs(rc * E * orc['Ta']))]
+    for j in range(nchems):
+        out.append(('inner-absent-compound', ro[4 + j], E * orc['ca'][j], abs(ro[4 + j]) + abs(E * orc['ca'][j])))
+    return out
 
 
-def common_discrepancy(res, nchems, bad_i, mi, mo):
-    """is the model/code discrepancy of this state pair one and the same amount in the inner copy (un-negated yp)
-    and in the outer copy of an exchange slot, with the particle block untouched?  (hypotheses of
-    Props.C06.common_shift_slot / _compound / _heat; the momentum slot is compared weighted by gamma_i, gamma_o)"""
-    if mi is None or mo is None or len(mi) != len(res['ri']) or len(mo) != len(res['ro']) or 'ids' not in res:
+def in_domain(nchems, rec, with_particles=True):
+    """the domain in which Lean's totalised operations coincide with the code's: list lengths, u+us != 0, M_j != 0"""
+    if not (len(rec['inner_c']) == nchems and len(rec['outer_c']) == nchems and len(rec['outer_ca']) == nchems):
         return False
-    if not all(holds(l, rr, s) for _n, l, rr, s in res['ids']):
-        return False
-    npart = len(res['ri']) - 4 - nchems
-    if [s for s in (bad_i if isinstance(bad_i, list) else []) if 4 <= s < 4 + npart]:
-        return False
-    gi, go = res['pv'][3], res['pv'][4]
-    for s in range(4 + nchems):
-        s_in = s if s < 4 else 4 + npart + (s - 4)
-        d_i = -(float(res['ri'][s_in]) - mi[s_in])
-        d_o = float(res['ro'][s]) - mo[s]
-        if s == 1:
-            d_i, d_o = gi * d_i, go * d_o
-        scale = abs(res['ri'][s_in]) + abs(res['ro'][s]) + abs(mi[s_in]) + abs(mo[s])
-        if s < 4 and s != 1:
-            scale = max(scale, res['ids'][{0: 0, 2: 1, 3: 2}[s]][3])
-        elif s >= 4:
-            scale = max(scale, res['ids'][3 + s - 4][3])
-        if not abs(d_i - d_o) <= TOL['identity'] * scale + TOL['abs_floor']:
+    if not with_particles:        # derivs_outer alone does not read the particles
+        return True
+    u = rec['inner'][1]
+    for q in rec['particles']:
+        if q['scal'][0] > 0.5:
+            if not (len(q['beta']) == nchems and len(q['Cs']) == nchems and len(q['ndh']) == nchems and len(q['M']) == nchems
+                    and q['nc'] == nchems and all(m != 0 for m in q['M'])):
+                return False
+        elif q['nc'] != 1:
+            return False
+        if u + q['scal'][3] == 0:
             return False
     return True
 
 
 def case_dump(sc, case, res, extra=None):
+    rec = res['recB']
     d = {'scenario_spec': sc.spec, 'kind': case['kind'], 'z': float(case['z']), 'p_changes': case['p'],
          'inner_state_y': vec(res['y_i']), 'outer_state_y': vec(res['y_o']),
-         'derivs_inner': vec(res['ri']), 'derivs_outer': vec(res['ro']),
-         'yi_attributes[b,u,s,T,rho,rho_a,alpha_s,Ep,Xi,Fb]': res['recB']['inner'], 'yi.c': res['recB']['inner_c'],
-         'yo_attributes[b,u,s,T,rho,rho_a,Sa,Ta]': res['recB']['outer'], 'yo.c': res['recB']['outer_c'],
-         'yo.ca': res['recB']['outer_ca'],
-         'params[c1,alpha_2,alpha_3,gamma_i,gamma_o,lambda_2,g,rho_r,Ru,cp]': res['pv'],
+         'derivs_inner': vec(res['ri']) if res.get('ri') is not None else None,
+         'derivs_outer': vec(res['ro']) if res.get('ro') is not None else None,
+         'params[c1,alpha_2,alpha_3,gamma_i,gamma_o,lambda_2,g,rho_r,Ru,cp]': res.get('pv'),
          'how_to_replay': 'cd /verif && ./check C06 --replay <this file>  (rebuilds the scenario from scenario_spec with '
                           'harness/scen_spm.build, calls the real smp.derivs_inner / smp.derivs_outer on the two states at depth z '
-                          'and prints every identity with its residual)'}
+                          'and prints every predicate with its residual)'}
+    if rec is not None:
+        d.update({'yi_attributes[b,u,s,T,rho,rho_a,alpha_s,Ep,Xi,Fb]': rec['inner'], 'yi.c': rec['inner_c'],
+                  'yi[Ta,Sa,P]': rec['inner_amb'], 'yi.ca': rec['inner_ca'],
+                  'yo_attributes[b,u,s,T,rho,rho_a,Sa,Ta]': rec['outer'], 'yo.c': rec['outer_c'], 'yo.ca': rec['outer_ca']})
+    if res.get('oracle') is not None:
+        d['oracle(ambient at z; derived from the states)'] = res['oracle']
     if extra:
         d.update(extra)
     return d
+
+
+def evaluate_predicates(sc, case, res):
+    """all property predicates of one completed state pair: [(key, what, extra-dict)] of the failing ones,
+    and the list of (name, lhs, rhs, scale) evaluated (for the residual statistics and the Lean cross-check)"""
+    nchems = len(sc.chem_names)
+    fails = []
+    evald = []
+    orc = res['oracle']
+    # 1. the objects against the independent oracle (ambient at the depth of the call, derived from the state)
+    for label, rec in (('after derivs_inner', res['recA']), ('after derivs_outer', res['recB'])):
+        if rec is None:
+            continue
+        for key, name, got, want in oracle_mismatches(rec, orc, label):
+            what = ('%s holds %r %s but the profile at the depth z of the call / the state vector give %r'
+                    % (name, got, label, want))
+            fails.append((key, what, {'attribute': name, 'code': got, 'oracle': want, 'when': label}))
+    kind = case['kind']
+    if kind.startswith('inner-absent'):
+        preds = inner_absent_predicates(res['pv'], nchems, orc, res['ro'])
+        evald += preds
+        for name, lhs, rhs, scale in preds:
+            if not holds(lhs, rhs, scale):
+                fails.append((name + '-not-ambient', 'without an inner plume the outer %s gradient is not the ambient entrainment alone' % name,
+                              {'identity': name, 'lhs': lhs, 'rhs': rhs, 'sum_abs_terms': scale}))
+        return fails, evald, None
+    ids, idiss = identities(res['pv'], nchems, res['recB'], orc, res['ri'], res['ro'])
+    evald += ids
+    for k, (name, lhs, rhs, scale) in enumerate(ids):
+        if not holds(lhs, rhs, scale):
+            j = k - 3 if name == 'compound' else None
+            fails.append(('exchange-%s-not-conservative' % name,
+                          'inner + outer %s gradients differ from the ambient entrainment into the outer plume' % name
+                          + (' (compound %s)' % sc.chem_names[j] if j is not None else ''),
+                          {'identity': name, 'lhs(inner+outer)': lhs, 'rhs(ambient entrainment)': rhs, 'sum_abs_terms': scale,
+                           'relative_residual': abs(lhs - rhs) / scale if scale else 0.}))
+    if res['y_o'][0] >= 0 or kind == 'outer-absent-above':
+        ap = absent_predicates(res['pv'], nchems, res['recA'], orc, res['ri'], idiss)
+        evald += ap
+        for name, lhs, rhs, scale in ap:
+            if not holds(lhs, rhs, scale):
+                fails.append((name + '-not-ambient', 'without an outer plume the inner plume does not exchange with the ambient (%s)' % name,
+                              {'identity': name, 'lhs': lhs, 'rhs': rhs, 'sum_abs_terms': scale}))
+    return fails, evald, ids
+
+
+# ---------------------------------------------------------------------------
+# probe outside the stated precondition: differing composition lists (evidence note only)
+# ---------------------------------------------------------------------------
+
+def probe_heterogeneous(ctx):
+    """tamoc's stratified plume model presupposes that all soluble classes share one composition list.  This probe
+    runs the real derivs_inner on (a) permuted and (b) subset lists and records what happens — as an evidence
+    note, never as a violation."""
+    import random
+    rng = random.Random(ctx.seed * 7919 + 6)
+    notes = []
+    for name, compA, compB in (('permuted', ['methane', 'ethane'], ['ethane', 'methane']),
+                               ('subset', ['methane', 'ethane'], ['methane'])):
+        try:
+            spec = S.random_spec(rng, 2, 0, False, composition=compA)
+            spec['particles'][1] = S.random_particle_spec(rng, True, compB)
+            sc = S.build(spec)
+            z0, y0 = S.initial_inner_state(sc)
+            objs = S.plume_objects(sc, z0, y0)
+            case = {'kind': 'outer-arbitrary', 'z': z0, 'yi': y0, 'yo': draw_outer(rng, sc, z0, y0, len(sc.chem_names)), 'p': {}}
+            res = run_real(sc, objs, case)
+            ri, ro = res['ri'], res['ro']
+            lay, idiss = S.inner_layout(sc.particles, len(sc.chem_names))
+            E = 2. * math.pi * res['oracle']['outer']['b'] * res['pv'][2] * res['oracle']['outer']['u']
+            named = []
+            for j, chem in enumerate(sc.chem_names):
+                tot = ri[idiss + j] + ro[4 + j] - E * res['oracle']['ca'][j]
+                scale = abs(ri[idiss + j]) + abs(ro[4 + j])
+                for pt, l in zip(sc.particles, lay):
+                    if chem in pt.composition:
+                        k = list(pt.composition).index(chem)
+                        tot += ri[l['m0'] + k]
+                        scale += abs(ri[l['m0'] + k])
+                named.append((chem, tot, tot / scale if scale else 0.))
+            notes.append('%s lists %r: code runs; budget per NAMED compound (residual, relative) = %r'
+                         % (name, [list(pt.composition) for pt in sc.particles], named))
+            ctx.count('probe heterogeneous compositions: %s ran' % name)
+        except Exception as e:
+            notes.append('%s lists %r + %r: real code raises %s' % (name, compA, compB, raise_site(e)))
+            ctx.count('probe heterogeneous compositions: %s raised' % name)
+    ctx.notes.append('PROBE outside the stated precondition (all soluble classes share one composition list; tamoc '
+                     'dispersed_phases.py l.1034) — not part of the verdict: ' + ' | '.join(notes))
 
 
 # ---------------------------------------------------------------------------
@@ -365,10 +556,11 @@ def case_dump(sc, case, res, extra=None):
 def run(ctx, lean_ok):
     r = ctx.rng
     plan = scenario_plan(ctx)
-    per_scen = ctx.n(160, 1500)
+    per_scen = ctx.n(240, 1500)
     records = []          # (sc, case, res)
-    raised = []
     seen = set()
+    nsim_ok = 0
+    done = {k: 0 for k in KINDS}
     for si, (n_sol, n_inert, bg) in enumerate(plan):
         spec = S.random_spec(r, n_sol, n_inert, bg)
         sc = S.build(spec)
@@ -378,9 +570,10 @@ def run(ctx, lean_ok):
         for attempt in range(3):
             try:
                 sim = S.simulate(sc, maxit=ctx.n(1, 2), delta_z=ctx.n(6., 3.))
+                nsim_ok += 1
                 break
-            except Exception as e:       # a scenario the real model cannot integrate: draw another
-                ctx.count('scenario-simulation-failed:%s' % type(e).__name__)
+            except Exception as e:       # a scenario the real model cannot integrate (C20's subject): draw another
+                ctx.count('scenario-simulation-failed:%s' % raise_site(e))
                 spec = S.random_spec(r, n_sol, n_inert, bg)
                 sc = S.build(spec)
         if sim is None:
@@ -389,24 +582,38 @@ def run(ctx, lean_ok):
         zi, yis, zo, yos = sim
         sc.nb_i = S.sim_neighbor(zi, yis) if len(zi) > 1 else None
         sc.nb_o = S.sim_neighbor(zo, yos) if len(zo) > 1 and len(np.unique(zo)) > 1 else None
-        if sc.nb_i is None or sc.nb_o is None:
-            sim = (zi, yis, np.array([0.]), np.zeros((1, 4 + len(sc.chem_names))))
+        if sc.nb_i is None:
+            sc.nb_o = None
         objs = S.plume_objects(sc, float(zi[0]), yis[0])
         cases = make_cases(ctx, sc, sim, per_scen)
         for case in cases:
+            ctx.evaluations += 1
             try:
                 res = run_real(sc, objs, case)
             except Exception as e:
-                # the real code refuses the state (e.g. EOS failure on an extreme perturbation): not a case,
-                # but counted — see the obligation 'real code evaluates the generated state pairs' below
-                ctx.count('real-code-raised:%s' % type(e).__name__)
-                raised.append('%s: %s (kind=%s z=%r)' % (type(e).__name__, str(e)[:120], case['kind'], case['z']))
+                # the generated states are valid (Q_i>0,J_i>0 or absent; Q_o<0,J_o>0 or absent; masses >= 0; T,S in range):
+                # code under test that raises on them is reported, not skipped
+                site = raise_site(e)
+                ctx.count('real-code-raised:' + site)
+                ctx.violation('raises:' + site, 'smp.derivs_inner / smp.derivs_outer raises on a valid state pair: %s: %s' % (site, str(e)[:200]),
+                              case_dump(sc, case, {'y_i': case.get('yi', []), 'y_o': case.get('yo', []), 'recB': None},
+                                        {'exception': '%s: %s' % (type(e).__name__, str(e)[:300])}))
                 continue
-            ctx.evaluations += 1
-            ctx.count('kind ' + case['kind'])
+            kind = case['kind']
+            vecs = [v for v in (res['ri'], res['ro']) if v is not None]
+            finite = all(bool(np.all(np.isfinite(v))) for v in vecs)
+            res['finite'] = finite
+            if not finite:
+                ctx.count('non-finite vector')
+                ctx.violation('non-finite-derivative', 'smp.derivs_inner / smp.derivs_outer returns inf/nan on a valid state pair',
+                              case_dump(sc, case, res))
+                continue
+            done[kind] += 1
+            ctx.count('kind ' + kind)
             ctx.count('c1!=0' if res['pv'][0] != 0 else 'c1==0')
             rb = res['recB']
             ctx.count('outer present (Q_o<0)' if res['y_o'][0] < 0 else 'outer absent (Q_o>=0)')
+            ctx.count('inner present (Q_i>0)' if res['y_i'][0] > 0 else 'inner absent (Q_i<=0)')
             ctx.count('peeling Ep!=0' if rb['inner'][7] != 0 else 'peeling Ep==0')
             if any(q['scal'][0] > 0.5 and q['scal'][1] > 0 and any(b > 0 for b in q['beta']) for q in rb['particles']):
                 ctx.count('dissolution active')
@@ -416,119 +623,122 @@ def run(ctx, lean_ok):
                 ctx.count('ambient background concentration non-zero')
             if any(c != 0 for c in rb['outer_c']) and res['y_o'][0] < 0:
                 ctx.count('outer plume carries dissolved compounds')
-            finite = bool(np.all(np.isfinite(res['ri'])) and np.all(np.isfinite(res['ro'])))
-            ctx.count('finite' if finite else 'non-finite vector (out of domain)')
+            res['in_domain'] = in_domain(len(sc.chem_names), rb, with_particles=not kind.startswith('inner-absent'))
+            if not res['in_domain']:
+                ctx.count('outside the domain of the theorems (list lengths, u+us=0, M=0)')
             key = (si, round(float(case['z']), 6)) + tuple(float('%.10g' % v) for v in
                                                            (res['y_i'][0], res['y_i'][1], res['y_o'][0], res['y_o'][1]))
-            if finite and key not in seen:
+            if key not in seen:
                 seen.add(key)
                 ctx.nontrivial.add(key)
-            res['finite'] = finite
             records.append((sc, case, res))
-            if len(ctx.samples) < 4 and finite and case['kind'] in ('outer-arbitrary', 'simulated-pair'):
-                ctx.sample({'kind': case['kind'], 'z': float(case['z']), 'particles': len(sc.particles),
+            if len(ctx.samples) < 4 and kind in ('outer-arbitrary', 'simulated-pair'):
+                ctx.sample({'kind': kind, 'z': float(case['z']), 'particles': len(sc.particles),
                             'chems': list(sc.chem_names), 'derivs_inner[0:4]': vec(res['ri'][:4]),
                             'derivs_outer[0:4]': vec(res['ro'][:4])})
 
-    nfin = sum(1 for _sc, _c, res in records if res['finite'])
-    ntot = len(records) + len(raised)
-    ctx.oblige('real code evaluates the generated state pairs (at most 5%% rejected or non-finite; %d generated)' % ntot,
-               ntot > 0 and nfin >= 0.95 * ntot,
-               '%d raised, %d non-finite of %d; first: %s' % (len(raised), len(records) - nfin, ntot, raised[:2]))
+    # ---- floors (a check that evaluated next to nothing must not pass) ---------------------
+    col = 1 if ctx.thorough else 0
+    short = {k: (done[k], FLOORS[k][col]) for k in KINDS if done[k] < FLOORS[k][col]}
+    ctx.oblige('floors on completed state pairs per case kind %r' % {k: FLOORS[k][col] for k in KINDS},
+               not short, 'below the floor (done, floor): %r' % short)
+    ctx.oblige('at least half of the %d scenarios were integrated by the real model' % len(plan),
+               2 * nsim_ok >= len(plan), '%d of %d' % (nsim_ok, len(plan)))
+    nout = sum(1 for _s, _c, res in records if not res['in_domain'])
+    ctx.oblige('every completed state pair lies in the domain where the totalised model operations coincide with the code '
+               '(list lengths = nchems, u+us != 0, M_j != 0)', nout == 0, '%d outside' % nout)
 
-    # ---- property predicates on the REAL vectors ----------------------------------------
+    # ---- property predicates on the REAL vectors, oracle on the right-hand side ------------
     nviol = 0
     worst = {}
     for sc, case, res in records:
-        if not res['finite']:
-            continue
-        nchems = len(sc.chem_names)
-        rec = res['recB']
-        ids, idiss = identities(res['pv'], nchems, rec, res['ri'], res['ro'])
+        fails, evald, ids = evaluate_predicates(sc, case, res)
         res['ids'] = ids
-        for k, (name, lhs, rhs, scale) in enumerate(ids):
+        for name, lhs, rhs, scale in evald:
             e = abs(lhs - rhs) / scale if scale > 0 else 0.
-            worst[name] = max(worst.get(name, 0.), e)
-            if not holds(lhs, rhs, scale):
-                nviol += 1
-                j = k - 3 if name == 'compound' else None
-                ctx.violation('exchange-%s-not-conservative' % name,
-                              'inner + outer %s gradients differ from the ambient entrainment into the outer plume' % name
-                              + (' (compound %s)' % sc.chem_names[j] if j is not None else ''),
-                              case_dump(sc, case, res, {'identity': name, 'lhs(inner+outer)': lhs, 'rhs(ambient entrainment)': rhs,
-                                                        'sum_abs_terms': scale, 'relative_residual': e}))
-        if res['y_o'][0] >= 0 or case['kind'] == 'outer-absent-above':
-            for name, lhs, rhs, scale in absent_predicates(res['pv'], nchems, res['recA'], res['ri'], idiss):
-                e = abs(lhs - rhs) / scale if scale > 0 else 0.
-                worst[name] = max(worst.get(name, 0.), e)
-                if not holds(lhs, rhs, scale):
-                    nviol += 1
-                    ctx.violation(name + '-not-ambient', 'without an outer plume the inner plume does not exchange with the ambient (%s)' % name,
-                                  case_dump(sc, case, res, {'identity': name, 'lhs': lhs, 'rhs': rhs, 'sum_abs_terms': scale}))
-            o = res['recA']['outer']
-            ok = (o[0] == 0 and o[1] == 0 and o[2] == o[6] and o[3] == o[7] and o[4] == o[5]
-                  and res['recA']['outer_c'] == res['recA']['outer_ca'])
-            if not ok:
-                nviol += 1
-                ctx.violation('absent-outer-not-ambient', 'OuterPlume.update without an outer plume does not hold the ambient values',
-                              case_dump(sc, case, res))
-    ctx.notes.append('worst relative identity residuals on real vectors: %r' % worst)
+            worst[name] = max(worst.get(name, 0.), float(e))
+        for key, what, extra in fails:
+            nviol += 1
+            ctx.violation(key, what, case_dump(sc, case, res, extra))
+    ctx.notes.append('worst relative residuals of the predicates on real vectors: %r' % worst)
 
-    # ---- correspondence with the Lean model ----------------------------------------------
+    # ---- labelled probe outside the precondition (note only) --------------------------------
+    try:
+        probe_heterogeneous(ctx)
+    except Exception as e:
+        ctx.notes.append('PROBE heterogeneous compositions could not run: %s' % raise_site(e))
+
+    # ---- correspondence with the Lean model --------------------------------------------------
     if not lean_ok:
         return
     lines = []
+    index = []      # per record: positions of its lines
     for sc, case, res in records:
         nchems = len(sc.chem_names)
         A, B = res['recA'], res['recB']
-        lines.append(req('Smp.derivsInner', res['pv'], nchems, A['inner'], A['inner_c'], A['outer'], A['outer_c'],
-                         A['outer_ca'], *particle_args(A)))
+        pos = {}
+        if A is not None:
+            pos['inner'] = len(lines)
+            lines.append(req('Smp.derivsInner', res['pv'], nchems, A['inner'], A['inner_c'], A['outer'], A['outer_c'],
+                             A['outer_ca'], *particle_args(A)))
+        pos['outer'] = len(lines)
         lines.append(req('Smp.derivsOuter', res['pv'], nchems, B['inner'], B['inner_c'], B['outer'], B['outer_c'],
                          B['outer_ca']))
-        lines.append(req('Smp.identities', res['pv'], nchems, B['outer'], B['outer_c'], B['outer_ca'],
-                         vec(res['ri']), vec(res['ro']), *particle_args(B)))
+        if A is not None:
+            pos['ids'] = len(lines)
+            lines.append(req('Smp.identities', res['pv'], nchems, B['outer'], B['outer_c'], B['outer_ca'],
+                             vec(res['ri']), vec(res['ro']), *particle_args(B)))
         o = B['outer']
+        pos['update'] = len(lines)
         lines.append(req('Smp.outerUpdate', res['pv'], vec(res['y_o']), o[7], o[6], o[5], B['outer_ca'], o[4], B['inner'][0]))
+        index.append(pos)
     out = run_driver(ctx, 'C06', lines)
     if out is None:
         return
     nbad = {'inner': 0, 'outer': 0, 'update': 0, 'layout': 0}
-    mism = []             # (case, res, bad_i, bad_o, mi, mo, common)
-    stale_slots = set()
     ncmp = 0
     nrec_differ = 0
-    for k, (sc, case, res) in enumerate(records):
-        oi, oo, oid, ou = out[4 * k:4 * k + 4]
-        if res['recA'] != res['recB']:
-            nrec_differ += 1
-        if not res['finite']:
-            continue
+    for (sc, case, res), pos in zip(records, index):
         ncmp += 1
-        nchems = len(sc.chem_names)
-        mi = oi[0] if isinstance(oi, list) else None
-        mo = oo[0] if isinstance(oo, list) else None
-        bad_i = mi is None or len(mi) != len(res['ri']) or [s for s in range(len(mi)) if not close(mi[s], float(res['ri'][s]), TOL['gen_vs_source'])]
-        bad_o = mo is None or len(mo) != len(res['ro']) or [s for s in range(len(mo)) if not close(mo[s], float(res['ro'][s]), TOL['gen_vs_source'])]
-        if bad_i or bad_o:
-            mism.append((case, res, bad_i, bad_o, mi, mo, common_discrepancy(res, nchems, bad_i, mi, mo)))
-        # the Lean readers (index layout of the theorems) against the Python predicate
-        if isinstance(oid, list) and 'ids' in res:
-            lv = oid[0]
-            ok = len(lv) == 2 * len(res['ids'])
-            if ok:
-                for q, (_n, lhs, rhs, scale) in enumerate(res['ids']):
-                    if not (abs(lv[2 * q] - lhs) <= TOL['identity'] * scale + TOL['abs_floor']
-                            and abs(lv[2 * q + 1] - rhs) <= TOL['identity'] * scale + TOL['abs_floor']):
-                        ok = False
+        if res['recA'] is not None and res['recA'] != res['recB']:
+            nrec_differ += 1
+        for which, real in (('inner', res['ri']), ('outer', res['ro'])):
+            if which not in pos:
+                continue
+            o = out[pos[which]]
+            m = o[0] if isinstance(o, list) else None
+            bad = m is None or len(m) != len(real) or [s for s in range(len(m)) if not close(m[s], float(real[s]), TOL['gen_vs_source'])]
+            if bad:
+                nbad[which] += 1
+                if nbad[which] <= 3:
+                    s = bad[0] if isinstance(bad, list) else -1
+                    ctx.broken.append(('correspondence', 'Model.Smp.derivs%s vs smp.derivs_%s' % (which.capitalize(), which),
+                                       'slot %s: model=%r code=%r kind=%s z=%r' % (s, m[s] if m and s >= 0 else m,
+                                                                                    float(real[s]) if s >= 0 else None, case['kind'], case['z'])))
+        # the Lean readers (index layout of the theorems) against the Python walk, both on the real vectors with the
+        # objects' own outer record (the comparison is about WHERE the slots are, not about the ambient values)
+        if 'ids' in pos:
+            oid = out[pos['ids']]
+            nchems = len(sc.chem_names)
+            B = res['recB']
+            a3, rho_r, Ru, cp = res['pv'][2], res['pv'][7], res['pv'][8], res['pv'][9]
+            Eo = 2. * math.pi * B['outer'][0] * a3 * B['outer'][1]
+            idx, mass, sc_mass, heat_sum, hos, sc_heat = particle_sums(nchems, B, res['ri'], Ru)
+            ri, ro = res['ri'], res['ro']
+            want = [ri[0] + ro[0], Eo, ri[2] + ro[2], Eo * B['outer'][6], ri[3] + heat_sum + ro[3], rho_r * cp * Eo * B['outer'][7] - hos]
+            for j in range(nchems):
+                want += [ri[idx + j] + mass[j] + ro[4 + j], Eo * B['outer_ca'][j]]
+            scales = [s for _n, _l, _r, s in res['ids']]
+            ok = isinstance(oid, list) and len(oid[0]) == len(want) and all(
+                abs(oid[0][q] - want[q]) <= TOL['identity'] * scales[q // 2] + TOL['abs_floor'] for q in range(len(want)))
             if not ok:
                 nbad['layout'] += 1
                 if nbad['layout'] <= 3:
-                    ctx.broken.append(('correspondence', 'Model.Smp.identities (slot readers of the theorems) vs harness predicate',
-                                       'kind=%s z=%r lean=%r python=%r' % (case['kind'], case['z'], lv[:8], [(a, b) for _n, a, b, _s in res['ids']][:4])))
-        else:
-            nbad['layout'] += 1
+                    ctx.broken.append(('correspondence', 'Model.Smp.identities (slot readers of the theorems) vs harness walk of the real vectors',
+                                       'kind=%s z=%r lean=%r python=%r' % (case['kind'], case['z'], oid[0][:8] if isinstance(oid, list) else oid, want[:8])))
         # OuterPlume.update
         B = res['recB']
+        ou = out[pos['update']]
         if isinstance(ou, list):
             ok = (close(ou[0], B['outer'], TOL['gen_vs_source']) and close(ou[1], B['outer_c'], TOL['gen_vs_source'])
                   and close(ou[2], B['outer_ca'], TOL['gen_vs_source']))
@@ -539,42 +749,14 @@ def run(ctx, lean_ok):
             if nbad['update'] <= 3:
                 ctx.broken.append(('correspondence', 'Model.Smp.outerUpdate vs OuterPlume.update',
                                    'y=%r model=%r code=%r' % (vec(res['y_o']), ou, (B['outer'], B['outer_c'], B['outer_ca']))))
-    all_common = bool(mism) and nviol == 0 and all(m[6] for m in mism)
-    ncommon = len(mism) if all_common else 0
-    for case, res, bad_i, bad_o, mi, mo, _c in mism:
-        if all_common:
-            for s in (bad_o if isinstance(bad_o, list) else []):
-                stale_slots.add('outer[%d]' % s)
-            for s in (bad_i if isinstance(bad_i, list) else []):
-                stale_slots.add('inner[%d]' % s)
-            continue
-        if bad_i:
-            nbad['inner'] += 1
-            if nbad['inner'] <= 3:
-                s = bad_i[0] if isinstance(bad_i, list) else -1
-                ctx.broken.append(('correspondence', 'Model.Smp.derivsInner vs smp.derivs_inner',
-                                   'slot %s: model=%r code=%r kind=%s z=%r' % (s, mi[s] if mi and s >= 0 else mi,
-                                                                                float(res['ri'][s]) if s >= 0 else None, case['kind'], case['z'])))
-        if bad_o:
-            nbad['outer'] += 1
-            if nbad['outer'] <= 3:
-                s = bad_o[0] if isinstance(bad_o, list) else -1
-                ctx.broken.append(('correspondence', 'Model.Smp.derivsOuter vs smp.derivs_outer',
-                                   'slot %s: model=%r code=%r kind=%s z=%r' % (s, mo[s] if mo and s >= 0 else mo,
-                                                                                float(res['ro'][s]) if s >= 0 else None, case['kind'], case['z'])))
     ctx.oblige('correspondence Model.Smp.derivsInner == smp.derivs_inner, every slot, %d state pairs (rel %g)' % (ncmp, TOL['gen_vs_source']),
                nbad['inner'] == 0, '%d state pairs disagree' % nbad['inner'])
     ctx.oblige('correspondence Model.Smp.derivsOuter == smp.derivs_outer, every slot, %d state pairs (rel %g)' % (ncmp, TOL['gen_vs_source']),
                nbad['outer'] == 0, '%d state pairs disagree' % nbad['outer'])
     ctx.oblige('correspondence Model.Smp.outerUpdate == OuterPlume.update (present and absent branch), %d states' % ncmp,
                nbad['update'] == 0, '%d disagree' % nbad['update'])
-    ctx.oblige('slot readers of the theorems (Model.Smp.identities) == harness predicate on the real vectors, %d state pairs' % ncmp,
+    ctx.oblige('slot readers of the theorems (Model.Smp.identities) == harness walk of the real vectors, %d state pairs' % ncmp,
                nbad['layout'] == 0, '%d disagree' % nbad['layout'])
-    if ncommon:
-        ctx.notes.append('MODEL STALE, NO ALARM: on %d state pairs the code differs from Model.Smp in %s, but by one and the same amount in '
-                         'the inner and the outer copy of the exchange term (identities hold on the real vectors); covered by '
-                         'Props.C06.common_shift_*; re-transcribe the model' % (ncommon, sorted(stale_slots)))
-        ctx.obligations.append(('slot-exact transcription is current (stale in terms common to both copies)', False))
     if nrec_differ:
         ctx.notes.append('%d cases where the derived attributes after derivs_inner and after derivs_outer differ (each model call uses its own snapshot)' % nrec_differ)
 
@@ -596,19 +778,24 @@ def replay(ctx, path):
     if kind == 'simulated-pair':
         kind = 'outer-arbitrary'          # the recorded states are replayed through constant neighbours
     case = {'kind': kind, 'z': float(c['z']), 'p': c['p_changes'], 'yi': np.array(c['inner_state_y'], dtype=float), 'yo': yo}
-    objs = S.plume_objects(sc, case['z'], case['yi'])
-    res = run_real(sc, objs, case)
-    nchems = len(sc.chem_names)
-    ids, idiss = identities(res['pv'], nchems, res['recB'], res['ri'], res['ro'])
-    preds = list(ids)
-    if res['y_o'][0] >= 0 or kind == 'outer-absent-above':
-        preds += absent_predicates(res['pv'], nchems, res['recA'], res['ri'], idiss)
-    bad = 0
-    print('derivs_inner =', vec(res['ri']))
+    z0, y0 = S.initial_inner_state(sc)
+    objs = S.plume_objects(sc, z0, y0)
+    try:
+        res = run_real(sc, objs, case)
+    except Exception as e:
+        print('REPLAY property=C06 violation reproduced: real code raises %s: %s' % (raise_site(e), e))
+        return 1
+    print('derivs_inner =', vec(res['ri']) if res['ri'] is not None else None)
     print('derivs_outer =', vec(res['ro']))
-    for name, lhs, rhs, scale in preds:
-        ok = holds(lhs, rhs, scale)
-        bad += not ok
-        print('%-16s lhs=%.17g rhs=%.17g |lhs-rhs|/sum|terms|=%.3g %s' % (name, lhs, rhs, abs(lhs - rhs) / scale if scale else 0., 'ok' if ok else 'FAILS'))
-    print('REPLAY property=C06 %s' % ('violation reproduced' if bad else 'all identities hold'))
-    return 1 if bad else 0
+    vecs = [v for v in (res['ri'], res['ro']) if v is not None]
+    if not all(bool(np.all(np.isfinite(v))) for v in vecs):
+        print('REPLAY property=C06 violation reproduced: non-finite derivative')
+        return 1
+    fails, evald, _ids = evaluate_predicates(sc, case, res)
+    for name, lhs, rhs, scale in evald:
+        print('%-22s lhs=%.17g rhs=%.17g |lhs-rhs|/sum|terms|=%.3g %s' % (name, lhs, rhs, abs(lhs - rhs) / scale if scale else 0.,
+                                                                        'ok' if holds(lhs, rhs, scale) else 'FAILS'))
+    for key, what, _x in fails:
+        print('FAILS %s: %s' % (key, what))
+    print('REPLAY property=C06 %s' % ('violation reproduced' if fails else 'all predicates hold'))
+    return 1 if fails else 0
